@@ -642,23 +642,22 @@ def _group_axis(ck: Checker, prog: Program, q: str):
 
 
 def _r4_guard(ck: Checker, prog: Program):
+    from ..pathtable import PathTable, literals, same_rel, negate
     f = prog.func("processing.check_nyquist_frequency")
+    if len(f.params) < 2:
+        raise AnalysisError(f"{f.qualname}: expected (dt, fcs)")
     T = Translator()
-    forward_substitute([st for st in f.node.body if isinstance(st, ast.Assign)], T)
-    ifs = [st for st in f.node.body if isinstance(st, ast.If) and any(isinstance(b, ast.Raise) for b in st.body)]
-    good = False
-    got = None
-    if len(ifs) == 1:
-        got = T.tr(ifs[0].test)
-        dt, fcs = T.sym(f.params[0]), T.sym(f.params[1])
-        mx = [sp.Function("max")(fcs), sp.Function("amax")(fcs)]
-        if isinstance(got, (sp.Gt, sp.Ge)):
-            good = any(equal(got.lhs, m) for m in mx) and equal(got.rhs, 1 / (2 * dt)) and isinstance(got, sp.Gt)
-        elif isinstance(got, (sp.Lt, sp.Le)):
-            good = any(equal(got.rhs, m) for m in mx) and equal(got.lhs, 1 / (2 * dt)) and isinstance(got, sp.Lt)
-    if good:
-        ck.ok(P + "R4", f.qualname, norm_key(ifs[0]), detail="raises iff max(fcs) > 1/(2 dt)")
+    dt, fcs = T.sym(f.params[0]), T.sym(f.params[1])
+    leaves = PathTable(prog, f.module).leaves(f.node.body)
+    alts = [sp.Gt(m, 1 / (2 * dt), evaluate=False) for m in (sp.Function("max")(fcs), sp.Function("amax")(fcs))]
+    raising = [l for l in leaves if l.exit == "raise"]
+    passing = [l for l in leaves if l.exit != "raise"]
+    ok_r = bool(raising) and all(any(same_rel(x, a) for x in literals(l) for a in alts) for l in raising)
+    ok_p = bool(passing) and all(any(same_rel(x, negate(a)) or (isinstance(x, sp.Not) and any(same_rel(x.args[0], a) for a in alts)) for x in literals(l) for a in alts) for l in passing)
+    if ok_r and ok_p:
+        ck.ok(P + "R4", f.qualname, "raises iff max(fcs) > 1/(2 dt)", detail=f"{len(raising)} raising / {len(passing)} passing path(s)")
     else:
+        got = [[str(x) for x in literals(l)] for l in raising][:2]
         ck.violation(P + "R4", f.qualname, "Nyquist test", f"the guard raises when {got}; expected max(fcs) > 1/(2*dt) (the largest requested centre frequency, "
                      f"whatever the order of fcs)", loc=f.loc())
     d = prog.func("processing.diffuse_field_hvsr_processing")
